@@ -8,16 +8,17 @@
 (*  Impl-shaped: Optimize.ConstantFolding.visit_MulNode /                    *)
 (*               _calculate_constant_seq: the sequence node keeps its items, *)
 (*               gets a `mult_factor` (or loses its items for k <= 0) and    *)
-(*               KEEPS THE constant_result IT HAD BEFORE.  Everything that   *)
+(*               takes over the constant_result of the product (MulNode:     *)
+(*               constant_result of the sequence * factor).  Everything that *)
 (*               is decided at compile time from that node (comparison       *)
 (*               folding, coercion to a truth value for not / if-else /      *)
-(*               and / or) reads the stale constant_result; the value built  *)
-(*               at run time (items * mult_factor) and `in` (a chain of      *)
-(*               comparisons with the items) are right.                      *)
+(*               and / or) reads that constant_result; the value built at    *)
+(*               run time is items * mult_factor; `in` is a chain of         *)
+(*               comparisons with the items.                                 *)
 (* A case is built in three steps: make a sequence of small ints, repeat it  *)
 (* (from the right or the left) up to MaxRepeats times, consume it.          *)
-(* Published: the reference result and the implementation-shaped result;     *)
-(* the cases where they differ are the hazards.                              *)
+(* TLC proves that the implementation-shaped result equals the reference     *)
+(* result for every consumer (ImplAgrees); published: the reference result.  *)
 EXTENDS Integers, Sequences, FiniteSets, TLC, Json
 
 CONSTANTS Atoms,        \* the ints that may be items
@@ -55,9 +56,10 @@ NodeOf(s) == [args |-> s, mult |-> 0, cres |-> s]
 \* _calculate_constant_seq(node, sequence_node, factor)
 CalcSeq(n, k) ==
   IF k # 1 /\ n.args # <<>> THEN
-       IF k <= 0 THEN [n EXCEPT !.args = <<>>, !.mult = 0]
-       ELSE IF n.mult # 0 THEN [n EXCEPT !.mult = n.mult * k]
-       ELSE [n EXCEPT !.mult = k]
+       \* sequence_node.constant_result = node.constant_result (the MulNode's: constant_result * factor)
+       IF k <= 0 THEN [n EXCEPT !.args = <<>>, !.mult = 0, !.cres = Rep(n.cres, k)]
+       ELSE IF n.mult # 0 THEN [n EXCEPT !.mult = n.mult * k, !.cres = Rep(n.cres, k)]
+       ELSE [n EXCEPT !.mult = k, !.cres = Rep(n.cres, k)]
   ELSE n
 \* what the generated code builds at run time
 NodeValue(n) == Rep(n.args, IF n.mult = 0 THEN 1 ELSE n.mult)
@@ -84,7 +86,7 @@ ImplConsume(c, n) ==
     [] c.c = "cond" -> RInt(IF n.cres # <<>> THEN 7 ELSE 8)
     [] c.c = "or" -> IF n.cres # <<>> THEN RSeq(NodeValue(n)) ELSE RInt(5)
     [] c.c = "and" -> IF n.cres # <<>> THEN RInt(5) ELSE RSeq(NodeValue(n))
-    [] c.c = "in" -> RBool(c.x \in Range(n.args))        \* `x in (a, b)` becomes a chain of comparisons with the items
+    [] c.c = "in" -> RBool(c.x \in Range(n.args))        \* `x in (a, b) * k` becomes a chain of comparisons with the items
     [] c.c = "ret" -> RSeq(NodeValue(n))
     [] c.c = "len" -> RInt(Len(NodeValue(n)))
 
@@ -104,9 +106,8 @@ Repeat == /\ phase = "seq" /\ Len(ops) < MaxRepeats
                /\ val' = Rep(val, k) /\ node' = CalcSeq(node, k)
           /\ UNCHANGED <<phase, kind, base, cons, res, ires>>
 
-\* the sequences a comparison is made with: the true value, the written items, the stale
-\* constant_result, the empty sequence, one more item
-Others == {val, base, node.cres, <<>>} \cup (IF Len(val) < 8 THEN {Append(val, 0)} ELSE {})
+\* the sequences a comparison is made with: the true value, the written items, the empty sequence, one more item
+Others == {val, base, <<>>} \cup (IF Len(val) < 8 THEN {Append(val, 0)} ELSE {})
 
 Consume == /\ phase = "seq"
            /\ \E c \in Consumers :
@@ -121,18 +122,16 @@ Spec == Init /\ [][Next]_vars
 ---------------------------------------------------------------------------
 (* the value built at run time is the Python value ...                       *)
 RuntimeValueRight == NodeValue(node) = val
-(* ... and a sequence that was never repeated has a fresh constant_result    *)
-FreshWithoutRepeat == (phase # "start" /\ \A i \in 1..Len(ops) : ops[i].k = 1) => node.cres = val
-(* the stale constant_result is always the written sequence                  *)
-StaleIsBase == phase # "start" => node.cres = base
-(* the implementation-shaped result differs from the reference only if the  *)
-(* constant_result is stale and the consumer decides at compile time         *)
-HazardOnlyIfStale == (phase = "done" /\ res # ires) => (node.cres # val /\ cons.c \notin {"ret", "len"})
+(* ... the constant_result of the node is that value as well ...             *)
+CresIsValue == phase # "start" => node.cres = val
+(* ... and so the implementation-shaped result of every consumer, decided at *)
+(* compile time or not, is the reference result: no hazard is left           *)
+ImplAgrees == phase = "done" => res = ires
 (* repeating obeys Python's laws on the reference side                       *)
 RepLaws == phase = "seq" => /\ Len(val) <= 8
                             /\ \A k \in Factors : Len(Rep(val, k)) = (IF k <= 0 THEN 0 ELSE k * Len(val))
 
 Publish == (Dump /\ phase = "done") =>
              PrintT("@@" \o ToJson([kind |-> kind, base |-> base, ops |-> ops, cons |-> cons, val |-> val,
-                                     res |-> res, ires |-> ires, stale |-> node.cres # val]))
+                                     res |-> res, repeated |-> val # base]))
 =============================================================================
